@@ -92,8 +92,15 @@ pub fn read_into<Ns>(reader: impl Read, mappings: &mut Mappings<2, Ns>) -> Resul
 					mappings: &mut Mappings<2, Ns>,
 					iter: &mut WithMoreIdentIter<impl Iterator<Item=Result<EnigmaLine>>>,
 					line: EnigmaLine,
-					parent: Option<(&JavaString, &JavaString)>
+					parent: Option<(&JavaString, &JavaString)>,
+					depth: usize,
 				) -> Result<()> {
+					// nested classes are parsed recursively, don't let a (malformed) file overflow the stack
+					const MAX_NESTING_DEPTH: usize = 256;
+					if depth > MAX_NESTING_DEPTH {
+						bail!("classes are nested more than {MAX_NESTING_DEPTH} levels deep");
+					}
+
 					let (src, dst) = match line.fields.as_slice() {
 						[src] => (src, None),
 						[src, mod_] if is_modifier(mod_) => (src, None),
@@ -117,7 +124,7 @@ pub fn read_into<Ns>(reader: impl Read, mappings: &mut Mappings<2, Ns>) -> Resul
 
 					iter.next_level().on_every_line(|iter, line| {
 						match line.first_field.as_str() {
-							CLASS => parse_class(mappings, iter, line, Some((&parent_src, &parent_dst))),
+							CLASS => parse_class(mappings, iter, line, Some((&parent_src, &parent_dst)), depth + 1),
 							FIELD => {
 								let (src, dst, desc) = match line.fields.as_slice() {
 									[src, desc] => (src, None, desc),
@@ -201,7 +208,7 @@ pub fn read_into<Ns>(reader: impl Read, mappings: &mut Mappings<2, Ns>) -> Resul
 
 					Ok(())
 				}
-				parse_class(mappings, iter, line, None)
+				parse_class(mappings, iter, line, None, 0)
 			},
 			tag => bail!("unknown mapping target {tag:?} for inside root, allowed are: `CLASS`"),
 		}
